@@ -26,6 +26,22 @@ package gremfam
 // ignores it. An unlisted id that WAS in the original graph and is reported as introduced is
 // never excused.
 //
+// Advisory aliases and dev/test scope (reference model: universe.RefAnalyse / RefConsidered,
+// written from options.RemediationOptions' documentation). IgnoreVulns addresses a record by
+// its id or by one of its aliases, ExplicitVulns by its id only; nothing else about `aliases`
+// has any effect: two records that name each other stay two vulnerabilities, each found, fixed
+// and introduced on its own. With DevDeps = false a vulnerability is left out when every path
+// from the root to every affected node starts with a dev (npm) / test (Maven) scoped direct
+// requirement; the option says nothing about which requirements a patch may change. Both are
+// the same in the first analysis, inside the strategies and in the fresh analysis, so the
+// equation above is decided unchanged. The generator links advisories through aliases (pairs
+// covering adjacent / disjoint ranges of one package, links between other records) and puts
+// packages that production requirements reach into the dev/test scope as well (shared
+// transitive packages; npm: one package under two keys or one key in two sections). The
+// reference analysis is only used for class counters (which applied patches mix dev/test and
+// production updates, whether leaving the dev/test updates out would change the analysis,
+// agreement of the reference analysis with both runs), never for the verdict.
+//
 // Aliased duplicates (npm): a share of the package.json files requires one registry package
 // twice in one section under different keys ("lib": "1.0.0" next to
 // "lib-legacy": "npm:lib@0.9.0", or two aliases). Nothing in the oracle is special for them.
@@ -33,6 +49,7 @@ package gremfam
 import (
 	"bytes"
 	"context"
+	"encoding/json"
 	"fmt"
 	"os"
 	"path/filepath"
@@ -40,6 +57,7 @@ import (
 	"sort"
 	"testing"
 
+	"deps.dev/util/resolve"
 	"github.com/google/osv-scalibr/guidedremediation"
 	"github.com/google/osv-scalibr/guidedremediation/options"
 	"github.com/google/osv-scalibr/guidedremediation/result"
@@ -73,6 +91,8 @@ func genC12(driver string, col *ev.Collector) func(*rapid.T) c12Case {
 		cfg.UnknownReqs = driver != drvMavenOverride
 		cfg.DottedNames = os.Getenv("VERIF_GREM_DOTTED") != "" // off by default: package.json writer finding of C13
 		cfg.AliasDuplicates = 30                                // npm: share of manifests with an aliased duplicate requirement
+		cfg.LinkedAdvisories = 35                               // advisories naming other advisories of the scenario in `aliases`
+		cfg.DevShared = 35                                      // dev/test scoped direct requirement on a package production requirements reach too
 		explicit := pct(t, "explicit?") < 35
 		if explicit {
 			// an explicit list is a proper subset of the advisories: have enough of them
@@ -87,7 +107,7 @@ func genC12(driver string, col *ev.Collector) func(*rapid.T) c12Case {
 		honourAliasDupSection(col, &c.Manifest)
 		honourDepMgmtClass(col, "c12", &c.Manifest)
 		honourDepMgmtRange(col, "c12", &c.Manifest)
-		o := remOpts{DevDeps: pct(t, "dev_deps") < 65, MaxDepth: -1}
+		o := remOpts{DevDeps: pct(t, "dev_deps") < 55, MaxDepth: -1}
 		if pct(t, "max_depth?") < 40 {
 			o.MaxDepth = universe.IntIn(t, 1, 3, "max_depth")
 		}
@@ -262,6 +282,7 @@ func propC12(c c12Case) (ev.Outcome, error) {
 			cls["alias_duplicate_two_aliases"] = true
 		}
 	}
+	c12StaticClasses(c, w.Index, cls)
 	listed := map[string]bool{}
 	for _, id := range c.Opts.ExplicitVulns {
 		listed[id] = true
@@ -288,6 +309,29 @@ func propC12(c c12Case) (ev.Outcome, error) {
 				return out(true), fmt.Errorf("analysis with explicit list %v reports unlisted %s", c.Opts.ExplicitVulns, v.ID)
 			}
 		}
+	}
+	// class counters over the original graph (reference model; not part of the verdict)
+	var g0 *resolve.Graph
+	if g, err := w.Resolve(context.Background(), path0, options.ResolutionOptions{MavenManagement: c.Opts.MavenManagement}); err == nil {
+		g0 = g
+		c12GraphClasses(c, g0, idSet(res1.Vulnerabilities), cls)
+	}
+	if os.Getenv("C12_DEBUG2") != "" && cls["vuln_on_dev_requirement_shared_with_prod"] && !c.Opts.DevDeps {
+		ro := c.Opts.build(c.Levels)
+		ps, _, _ := allPatches(w, path0, ro)
+		fmt.Printf("DEBUG2 %s opts=%+v levels=%+v noIntroduce=%v\n%s\nfound=%v\n", c.Driver, c.Opts, c.Levels, c.NoIntroduce, c.Manifest.Render(), sortedKeys(idSet(res1.Vulnerabilities)))
+		for _, p := range ps {
+			fmt.Printf("   proposal %s\n", describePatch(p))
+		}
+		for _, p := range res1.Patches {
+			fmt.Printf("   APPLIED %s\n", describePatch(p))
+		}
+		for _, v := range c.Vulns {
+			b, _ := json.Marshal(v.Affected)
+			fmt.Printf("  %s %s\n", v.ID, b)
+		}
+		cb, _ := json.Marshal(c)
+		fmt.Printf("CASEJSON %s\n", cb)
 	}
 	switch len(res1.Patches) {
 	case 0:
@@ -334,6 +378,7 @@ func propC12(c c12Case) (ev.Outcome, error) {
 	if len(p.Fixed) == 0 {
 		cls["patch_fixes_nothing"] = true
 	}
+	c12PatchClasses(c, w, p, cls)
 	ids1 := idSet(res1.Vulnerabilities)
 	for _, v := range res1.Vulnerabilities {
 		if v.Unactionable {
@@ -393,11 +438,11 @@ func propC12(c c12Case) (ev.Outcome, error) {
 			}
 		}
 	}
+	c12RefRun2(c, w, path1, got, cls)
 	var inOriginal map[string]bool // reference model: ids present in the original graph, unfiltered
 	if explicit {
-		g0, err := w.Resolve(context.Background(), path0, options.ResolutionOptions{MavenManagement: c.Opts.MavenManagement})
-		if err != nil {
-			return out(false), fmt.Errorf("harness: original manifest does not resolve: %v", err)
+		if g0 == nil {
+			return out(false), fmt.Errorf("harness: original manifest does not resolve")
 		}
 		inOriginal = universe.GraphVulnIDs(g0, c.Vulns, c.Universe.System)
 		for _, id := range sortedKeys(got) {
